@@ -380,7 +380,7 @@ kernel_par_level = Unit(
     sig="void kernel_par_level(size_t i, %s)" % LEVEL_PARAMS,
     pre=POOL_MODEL, defs="#define FSL_RET\n",
     rules=[
-        V(r"\brun\(([^;()]*)\);", r"{ KERNEL_RUN(\1); if (fsl_thrown) return; }"),
+        V(r"\brun\(((?:[^;()]|\([^()]*\))*)\);", r"{ KERNEL_RUN(\1); if (fsl_thrown) return; }"),
         V(r"m_thread_pool\.run_blocks\(([^;]*), run, ([^;]*)\);", r"{ FSL_RUN_BLOCKS(\1, \2); if (fsl_thrown) return; }"),
     ] + KERNEL_VOCAB,
     contract=BLOCK_REQ.replace("EVT_MAX", "EVT_LEVEL_MAX") + r"""
@@ -563,6 +563,76 @@ for _case, _what in (("any", "apply_dir == any (storage order, the single level 
                "position processed exactly once with a slot < n_threads; levels strictly one after the other (event clock windows); small "
                "levels on slot 0"))
 
+# ---------------------------------------------------------------------------------------------------- apply_kernel_par, BOUNDED whole function
+# The unbounded groups above outline the level loop's body; a change that restructures that loop (state carried across levels, levels gathered,
+# extra branches) cannot be cut at the same places and ends in an extraction break (exit 2).  This bounded stand-in extracts the function as ONE
+# unit -- only the `run` lambda is the separately extracted kernel_par_block, called wherever the text calls `run` or hands it to run_blocks -- and
+# executes the recorder callbacks and the sequential pool model on ALL level tables within the bound.  Labelled bounded, never counted as proof.
+KB_N = 4      # positions of the order
+KB_L = 3      # levels
+kernel_par_b = Unit(
+    name="kernel_par_b", file=INL_H, anchor=PAR_ANCHOR,
+    sig="int kernel_par_b(const struct kernel *kernel, fsl_handle kdata, %s, fsl_handle *node_data_buf, size_t nd_cap)" % TABLES,
+    pre=POOL_MODEL.replace("KERNEL_RUN(r, s, e) kernel_par_block((r), (s), (e), %s)" % BLOCK_ARGS,
+                           "KERNEL_RUN(r, s, e) kernel_par_block((r), (s), (e), %s)" % BLOCK_ARGS), defs=TABLE_DEFS + "#define FSL_RET 0\n",
+    rules=[
+        R(r"auto run = \[.*?\n        \};", "/* lambda `run`: extracted as kernel_par_block */", 1, re.S),
+        V(r"\brun\(((?:[^;()]|\([^()]*\))*)\);", r"{ KERNEL_RUN(\1); if (fsl_thrown) return 0; }"),
+        V(r"m_thread_pool\.run_blocks\(([^;]*), run, ([^;]*)\);", r"{ FSL_RUN_BLOCKS(\1, \2); if (fsl_thrown) return 0; }"),
+        R(r"std::vector<decltype\(kernel\.node_data_create\(\)\)> node_data\(([^;]*)\);",
+          r"fsl_handle *node_data = node_data_buf; size_t node_data_n = (size_t) (\1); /* vector of that many handles; storage = container model */", 1),
+        V(r"for \(auto (\w+) = 0;", r"for (int \1 = 0;"),
+        V(r"auto n_threads =", "int n_threads ="),
+    ] + KERNEL_VOCAB,
+)
+H_PAR_B = H_DECLS + r"""
+void h_kernel_par_b(void)
+{
+    struct kernel k; size_t order[KB_N], levels[KB_L + 1], one[2]; fsl_handle ndb[KB_N];
+    size_t gsize = nondet_size_t(), nlev = nondet_size_t();
+    k.n_threads = nondet_int(); k.min_block_size = nondet_int(); k.min_level_size = nondet_int(); k.apply_dir = nondet_int(); k.has_init = nondet_bool();
+    __CPROVER_assume(1 <= gsize && gsize <= KB_N && 2 <= nlev && nlev <= KB_L + 1);
+    __CPROVER_assume(2 <= k.n_threads && k.n_threads <= KB_N && 0 <= k.min_block_size && k.min_block_size <= KB_N + 1 && 0 <= k.min_level_size && k.min_level_size <= KB_N + 1);
+    __CPROVER_assume(k.apply_dir == DIR_any || k.apply_dir == DIR_breadth_upstream);
+    /* the order is a permutation of the nodes (C06); the level table starts at 0, is strictly increasing (levels are non-empty, C06) and ends at size */
+    for (int p = 0; p < KB_N; ++p) { order[p] = nondet_size_t(); if ((size_t) p < gsize) { __CPROVER_assume(order[p] < gsize); for (int q = 0; q < p; ++q) __CPROVER_assume(order[q] != order[p]); } }
+    for (int l = 0; l <= KB_L; ++l) { levels[l] = nondet_size_t(); if ((size_t) l < nlev) __CPROVER_assume(l == 0 ? levels[l] == 0 : levels[l - 1] < levels[l]); }
+    __CPROVER_assume(levels[nlev - 1] == gsize);
+    one[0] = 0; one[1] = gsize;
+    kg_havoc();
+    { struct kghost z = {0}; KG = z; }   /* nothing recorded yet */
+    fsl_handle kdata = nondet_size_t(); KG.data = kdata; fsl_thrown = 0;
+    KG.pool_size = nondet_size_t(); KG.pool_paused = nondet_int();
+    __CPROVER_assume(GP < gsize && order[GP] == GNODE && GSL < (size_t) k.n_threads);
+    GNODE2 = GNODE; GP2 = GP;
+    int r = kernel_par_b(&k, kdata, order, order, order, gsize, one, 2, levels, nlev, ndb, KB_N);
+    if (!KG.get_failed)
+    {
+        /* C10, from the statement (kernel outputs equal the sequential application): every position of the order is processed exactly once, by a complete
+         * getter -> func -> setter triple in protocol, with the node data of a slot < n_threads; node data created before / freed after, once per slot */
+        __CPROVER_assert(fsl_thrown == 0 && r == 0, "C10 kernel application completes when no getter fails");
+        __CPROVER_assert(KG.g_get == 1 && KG.g_func == 1 && KG.g_set == 1, "C10 every position of the order is processed exactly once (as in the sequential application)");
+        __CPROVER_assert(!KG.bad && KG.phase == 0 && !KG.alien, "C10 callbacks run in protocol (getter -> func -> setter on one node-data object created by node_data_create)");
+        __CPROVER_assert(KG.nget == gsize && KG.nset == gsize, "C10 exactly one triple per position");
+        __CPROVER_assert(KG.g_runner < (size_t) k.n_threads, "C10 node-data slot below the number of threads");
+        __CPROVER_assert(KG.ncreated == (size_t) k.n_threads && KG.nfree == (size_t) k.n_threads && KG.s_create == 1 && KG.s_free == 1 && KG.s_create_nget == 0 && KG.s_free_nset == gsize,
+                         "C10 one node-data object per slot, created before the first and freed after the last triple");
+    }
+    else
+        __CPROVER_assert(fsl_thrown != 0, "a getter failure is reported");
+    __CPROVER_assert(0, "canary: postcondition point reachable");
+}
+"""
+_PAR.append(Group(
+    name="kernel.par.bounded", units=[kernel_par_block, kernel_par_b], harness=H_PAR_B, entry="h_kernel_par_b",
+    defines=["KB_N=%d" % KB_N, "KB_L=%d" % KB_L], unwind=KB_N + 2, backend="cadical", timeout=900, min_obligations=10,
+    no_checks=["--conversion-check"],
+    bounded="orders of <= %d positions, <= %d levels (all strictly increasing level tables), 2..%d threads, min_block_size / min_level_size in 0..%d, both supported "
+            "apply directions, every partition of a level into at most pool-size contiguous blocks (sequential model of run_blocks); complete unwinding %d"
+            % (KB_N, KB_L, KB_N, KB_N + 1, KB_N + 2),
+    clause="apply_kernel_par extracted as ONE unit (no outlined loop body, so restructured level loops are still judged): every position processed exactly once "
+           "in protocol with a slot < n_threads, one triple per position, node data created / freed once per slot around the triples"))
+
 # ====================================================================================================== c. apply_kernel
 APPLY_MODEL = r"""
 int SEL_PAR, SEL_SEQ, SEL_RET;
@@ -592,6 +662,10 @@ _APPLY = [Group(name="kernel.apply", units=[kernel_apply], harness=H_APPLY, entr
                 clause="apply_kernel: n_threads > 1 selects apply_kernel_par, anything else apply_kernel_seq; exactly one path runs")]
 
 GROUPS = {"C10": _SEQ + _PAR + _APPLY}
+# native replay: counting kernel on real graphs, multi-threaded against sequential application over thread counts / block / level sizes
+for _g in GROUPS["C10"]:
+    if not getattr(_g, "replay", None):
+        _g.replay = "replay/kernel.cpp"
 PROPS = {
     "C10": dict(
         level="other",
